@@ -58,9 +58,25 @@ fn values(sh: Shape, radix: u32) -> BoxedStrategy<Pat> {
         let z = r3.pow_capped(j, w + 8).unwrap_or_else(|| Z::pow2(w)).add_i(e);
         wrap(z.mod_2k(w))
     });
+    // quotient-structured values: v = q * (r^p)^m + rem with q a structured BINARY pattern (zero /
+    // extreme binary digits), so that the running quotient of the chunked conversion hits zero and
+    // all-ones binary digits
+    let r4 = r.clone();
+    let quotient_structured = (prop_oneof![gen::digitwise(sh), gen::runs(sh), gen::short(sh)], prop_oneof![Just(p_full), Just(p_half)], 1u32..4, gen::pattern(sh), 0u8..3).prop_map(move |(q, p, m, rem, rsel)| {
+        let scale = r4.pow_capped(p * m, w + 8).unwrap_or_else(|| Z::pow2(w));
+        let room = w.saturating_sub(scale.bit_len());
+        let zq = Z::from_le_unsigned(&q.0).mod_2k(room);
+        let zr = match rsel {
+            0 => Z::zero(),
+            1 => scale.add_i(-1),
+            _ => Z::from_le_unsigned(&rem.0).divrem_trunc(&scale).1,
+        };
+        wrap(zq.mul(&scale).add(&zr).mod_2k(w))
+    });
     prop_oneof![
         4 => gen::pattern(sh),
         4 => chunked,
+        4 => quotient_structured,
         3 => powers,
         1 => (0u32..256).prop_map(move |x| wrap(Z::from_u64(x as u64))),
         1 => gen::boundary(sh),
@@ -171,7 +187,7 @@ fn main() {
     runner::main(
         Property {
             id: "C11",
-            rule: "Every radix 2..=256 in every run (radices <= 36 and powers of two weighted x3). Values: structured W-bit patterns; sums c_i*(r^p)^i with many chunks c_i in {0, 1, r^p-1} for the chunk sizes p implied by the digit size and half the digit size (interior zero chunks); r^j and r^j+-1; single-digit values; boundary values (MAX, MIN, -1, 0). Oracle: the canonical numeral from the reference integer by repeated single-limb division (lowercase, no leading zeros, '0' for zero, '-' + magnitude for negatives; the two's-complement pattern for to_radix_be/le of signed types), plus the round trips through from_str_radix / from_radix_be / from_radix_le; out-of-range radices {0, 1, 37, 257, 258, 65536, u32::MAX} panic and in-range ones never do. NON-TRIVIAL: the output has >= 3 digits. distinct = distinct (profile, job, inputs) by 64-bit hash. 8-bit configuration: all values x all radices.",
+            rule: "Every radix 2..=256 in every run (radices <= 36 and powers of two weighted x3). Values: structured W-bit patterns; sums c_i*(r^p)^i with many chunks c_i in {0, 1, r^p-1} for the chunk sizes p implied by the digit size and half the digit size (interior zero chunks); r^j and r^j+-1; quotient-structured values q*(r^p)^m + rem with q a structured binary pattern (zero / extreme binary digits in the running quotient); single-digit values; boundary values (MAX, MIN, -1, 0). Oracle: the canonical numeral from the reference integer by repeated single-limb division (lowercase, no leading zeros, '0' for zero, '-' + magnitude for negatives; the two's-complement pattern for to_radix_be/le of signed types), plus the round trips through from_str_radix / from_radix_be / from_radix_le; out-of-range radices {0, 1, 37, 257, 258, 65536, u32::MAX} panic and in-range ones never do. NON-TRIVIAL: the output has >= 3 digits. distinct = distinct (profile, job, inputs) by 64-bit hash. 8-bit configuration: all values x all radices.",
             assumptions: &[
                 "digits()/from_digits()/to_bits()/from_bits() are the trusted observation channel",
                 "reference numerals by repeated division of the reference integer by the radix (self-tested against the primitives' formatting)",
